@@ -43,6 +43,8 @@ type fact struct {
 	s      string
 	syms   []string
 	always bool
+	// derived: the statement of an earlier obligation (sound to use, sound to drop)
+	derived bool
 }
 
 type Obligation struct {
@@ -150,7 +152,11 @@ func (c *Ctx) oblige(name, kind, label string, reach, cond Term, pos token.Pos, 
 	o := &Obligation{Name: name, Kind: kind, Label: label, nfacts: len(c.facts), Reach: reach, Cond: cond, Pos: pos, Desc: desc}
 	c.obls = append(c.obls, o)
 	// later code may assume it
-	c.assume(implies(reach, cond))
+	imp := implies(reach, cond)
+	c.assume(imp)
+	if n := len(c.facts); n > 0 && c.facts[n-1].s == imp.S {
+		c.facts[n-1].derived = true
+	}
 	return o
 }
 
